@@ -141,6 +141,12 @@ where
             .ok_or(AuthError::InvalidToken)?;
 
         let mut session = user.session.unwrap();
+
+        // An expired token must not be brought back to life by refreshing it.
+        if !session.valid() {
+            return Err(AuthError::InvalidToken);
+        }
+
         session.refresh(self.config.default_refresh_lifetime);
 
         user.session = Some(session);
